@@ -97,6 +97,7 @@ func (p *FullScanPlan) Batch(ctx *ExecuteCtx) ([]KVPair, error) {
 		}
 	}
 	ctx.AdjustChunkCache(chooseIdxes)
+	ctx.BindChunkCache(ret)
 	return ret, nil
 }
 
@@ -209,6 +210,7 @@ func (p *PrefixScanPlan) Batch(ctx *ExecuteCtx) ([]KVPair, error) {
 		}
 	}
 	ctx.AdjustChunkCache(chooseIdxes)
+	ctx.BindChunkCache(ret)
 	return ret, nil
 }
 
@@ -336,6 +338,7 @@ func (p *RangeScanPlan) Batch(ctx *ExecuteCtx) ([]KVPair, error) {
 		}
 	}
 	ctx.AdjustChunkCache(chooseIdxes)
+	ctx.BindChunkCache(ret)
 	return ret, nil
 }
 
@@ -459,6 +462,7 @@ func (p *MultiGetPlan) Batch(ctx *ExecuteCtx) ([]KVPair, error) {
 		}
 	}
 	ctx.AdjustChunkCache(chooseIdxes)
+	ctx.BindChunkCache(ret)
 	return ret, nil
 }
 
